@@ -281,9 +281,11 @@ func run6(c *fw.Ctx) {
 	}
 	// the json module walks values too: it detects cycles through arrays, maps and pointers; an encoderOptions object
 	// (json.Quote, json.NoQuote, ...) can hold itself, directly or through a container
-	cyco := "json := import(\"json\"); cyco := json.Quote(1); cyco.Value = cyco; cyco2 := json.NoEscape(1); cyca := [cyco2]; cyco2.Value = cyca; "
+	cyco := "json := import(\"json\"); zero10 := 10.0; cyco := json.Quote(1); cyco.Value = cyco; cyco2 := json.NoEscape(1); cyca := [cyco2]; cyco2.Value = cyca; "
 	curMM = ugo.NewModuleMap().AddBuiltinModule("json", ujson.Module)
-	for _, e := range []string{"json.Marshal(cyc)", "json.Marshal(cycm)", "json.Marshal(cyco)", "json.Marshal(cyca)", "json.Marshal(cyco2)", "json.MarshalIndent(cyco, \"\", \" \")"} {
+	// (and a failure below a SyncMap that json walks under the map's lock: the map must be usable afterwards)
+	cyco += "smjf := func() { kk := \"inf\"; SM[kk] = 1e308 * zero10; r := json.Marshal(SM); delete(SM, kk); SM.after = 1; delete(SM, \"after\"); return isError(r) }; "
+	for _, e := range []string{"json.Marshal(cyc)", "json.Marshal(cycm)", "json.Marshal(cyco)", "json.Marshal(cyca)", "json.Marshal(cyco2)", "json.MarshalIndent(cyco, \"\", \" \")", "smjf()"} {
 		for _, cx := range contexts[:2] {
 			if !c.Next() {
 				continue
